@@ -25,19 +25,25 @@ def run(ctx):
     try:
         for t in range(ntrees):
             r = ctx.rng.fork()
-            snap = corr.Snap(scratch, tie_tree(r), subdir="t%d" % t, tz="UTC")
+            ents = tie_tree(r)
+            with_arc = r.chance(1, 2)
+            if with_arc:
+                for i in range(r.range(1, 2)):
+                    ents.append({"path": "pack%d.zip" % i, "kind": "z", "members": fstree.gen_zip_members(r, r.choice([2, 5, 8])),
+                                 "mtime": 1700000000})
+            snap = corr.Snap(scratch, ents, subdir="t%d" % t, tz="UTC")
             dirs = [gen.quote_path("./" + n["rel"]) for n in snap.nodes if n["kind"] == "d"]
             dirs = [d for d in dirs if d]
             for _ in range(per_tree):
                 ordered = r.chance(2, 3)
                 keys = r.sample(KEYS[:8], r.range(1, 2)) if ordered else []
                 asc = [r.chance(2, 3) for _ in keys]
-                where = r.choice(["", "", " where size > 0", " where is_dir = false"])
+                where = r.choice(["", "", " where size > 0", " where is_dir = false", " where name like '%.log'", " where name like '%.txt' or size = 10"])
                 roots = "."
                 if dirs and r.chance(1, 4):
                     roots = "%s, %s" % (r.choice(dirs), r.choice(["." + "/" + "zz-none", r.choice(dirs)]))
                     roots = roots if "zz-none" not in roots else r.choice(dirs)
-                trav = r.choice(["", " bfs", " dfs"])
+                trav = r.choice(["", " bfs", " dfs"]) + (r.choice([" arc", " archives"]) if with_arc and r.chance(2, 3) else "")
                 sel = ["path"] + [k for k, _ in keys]
                 order = (" order by " + ", ".join(k + ("" if a else " desc") for (k, _), a in zip(keys, asc))) if keys else ""
                 base = "select %s from %s%s%s%s" % (", ".join(sel), roots, trav, where, order)
